@@ -29,6 +29,37 @@ IO = "MiniMcmcVerif.IO."
 ST = "MiniMcmcVerif.Stats."
 
 PROPS = {
+    "C11": {
+        "obligations": [ST + n for n in ["splitcat_spec", "varplus_eq", "rhatSq_eq", "Bof_nonneg", "rhatSq_ge", "mean_affine", "withinVar_affine", "rhat_affine_inv",
+                                         "rhat_chain_perm_inv", "rhat_param_local", "sortDesc_perm", "sortDesc_sorted", "basic_minmax_spec"]],
+        "rel32": 2e-3, "abs32": 1e-6,
+        "level_text": "Theorems (any ordered field, any number/length of chains): splitcat yields 2c half-chains of length n/2 (first/last n/2 draws, odd middle dropped); the value computed is var+/W with "
+                      "var+ = (n-1)/n W + B/n, equal to (n-1)/n + B/(nW), hence >= (n-1)/n; invariance under x -> a x + b (a != 0) and under permutation of chains; locality in the parameter; "
+                      "basic_stats' min/max are the true extremes and median the floor(len/2)-th order statistic of a descending permutation. Tied to stats.rs by running split_rhat_mean_ess / basic_stats / RunStats "
+                      "on generated arrays and comparing with the same polymorphic model at Float (reference) with a Float32 mirror deciding conditioning.",
+        "level_note": "Partial: 'increases without bound as chains are moved apart' is not a theorem here (it follows from rhatSq_eq: B grows quadratically in the separation while W is unchanged) — it is "
+                      "checked on the implementation by the C11:not-growing predicate (separations 0,10,100,1000 in units of the within-chain scale). Rounding not modelled (tolerance 2e-3); NaN-robustness of the summary is observed (catch_unwind), not proved.",
+        "rule": "arrays with 1-16 chains, 4-5000 draws (odd and even; 4-8, the 198-205 and 255-257 neighbourhoods favoured), 1-8 parameters of kinds iid/AR(1)/trend/bimodal/separated/sticky/constant, "
+                "10% with location 1e4 x scale (mostly indeterminate); one model case per (array, parameter); exact metamorphic predicates (x 2^k scaling, other-parameter independence), lower bound, "
+                "growth with separation; basic_stats on 1-40 finite values; summaries with NaN / 20-40 parameters incl. constant ones must not panic; distinct by (chains, draws, kind, first value)",
+        "trusted": ["floating-point rounding is not modelled (f32 results vs exact-arithmetic model at relative tolerance 2e-3 on inputs the f32 mirror handles stably)", "rayon / ndarray slicing semantics"],
+        "assumptions": [],
+    },
+    "C12": {
+        "obligations": [ST + n for n in ["npadGo_spec", "npad_spec", "sum_range_zero_tail", "zipWith_drop_eq", "circ_eq_linear", "autocovCirc_eq_autocovBF", "autocov_eq_autocovBF",
+                                         "geyerSeq_eq", "geyer_eq_sum", "geyerSeq_pos_antitone", "tau_eq", "ess_path_independent"]],
+        "rel32": 6e-3, "abs32": 4e-4,
+        "level_text": "Theorems: the FFT padding length is a power of two >= 2n-1; for such a length the circular correlation of the zero-padded centred sequence equals the linear one at every lag < n, so "
+                      "autocov_fft (given the DFT correlation identity) and autocov_bf are the same function and the 100-row switch cannot change ESS; the accumulated sequence is the running minimum of the "
+                      "maximal positive prefix of the pair sums (Geyer), positive and non-increasing; tau = -1 + 2 * its sum and ESS = M*N/tau. Tied to stats.rs by comparing both private autocovariance paths "
+                      "(hooks) and split_rhat_mean_ess across the switch, on original, time-reversed and chain-permuted data, with the model at Float; cases where the f32 mirror truncates elsewhere are indeterminate.",
+        "level_note": "Trusted: rustfft computes the DFT (correlation identity assumed, zero-padding argument proved). Partial: invariance under affine maps / chain permutation / time reversal is exercised through model "
+                      "cases on transformed data (and the exact x 2^k predicate under C11) but not stated as theorems about `ess`; 'about N for iid, N(1-phi)/(1+phi) for AR(1)' is statistical: the measured ratio is reported in the evidence notes, not decided.",
+        "rule": "columns of length 2-5000 (powers of two +-1 favoured) for the two autocovariance paths; arrays with 1-16 chains x 4-5000 draws x 1-3 parameters for ESS incl. half-lengths 99-102 around the "
+                "switch; a third time-reversed, a third chain-permuted; AR(1) coefficients in (-0.9, 0.99); distinct by (chains, draws, kind, first value)",
+        "trusted": ["rustfft computes the discrete Fourier transform", "floating-point rounding is not modelled (relative tolerance 6e-3, autocovariances compared after division by lag 0 with absolute tolerance 4e-4)"],
+        "assumptions": [],
+    },
     "C13": {
         "obligations": [ST + n for n in ["feed_inv", "tracker_moments", "tracker_mean", "sum_sq_sub", "tracker_sm2", "collect_rhat_eq_classical",
                                          "multi_rhat_eq_classical", "collect_rhat_eq_multi", "ema_mem", "p_accept_mem", "p_accept_ema"]],
